@@ -804,7 +804,8 @@ class PteraTransformer(NodeTransformer):
         # insert at the start of the function, which may use the names, so
         # they are moved to the top of the function.
         self.declarations.append(node)
-        return None
+        # (the block it was in must not become empty)
+        return ast.copy_location(ast.Pass(), node)
 
     visit_Nonlocal = visit_Global
 
